@@ -4,7 +4,8 @@ import GoProbeModel.Model.WriteOut
 /-!
 C30 — model of a `GPDir` reader running concurrently with the writer of Model/WriteOut.lean, one
 file operation at a time (`gpdir.go`: `Open` with `recoverDirPath`, `ReadBlockAtIndex` with its
-close-reopen-retry on ENOENT; `gpfile.go`: lazy `open`). The reader's stop points are its `openat`
+relocate-and-retry on ENOENT (`relocateColumn`: list the month directory, keep metadata and open
+column files); `gpfile.go`: lazy `open`). The reader's stop points are its `openat`
 calls; the reads between them use descriptors that are already open.
 -/
 namespace C30
@@ -13,15 +14,10 @@ open DB WO
 /-- name of the day directory as the reader knows it: the summary in its suffix (none = plain name) -/
 abbrev DirName := Option Totals
 
+/-- who lists the month directory again after an ENOENT -/
 inductive Stage where
-  | init                      -- the initial `Open`
-  | reopen (b c : Nat)        -- recovery inside `ReadBlockAtIndex(c, b)`
-  deriving Repr, DecidableEq
-
-/-- what follows the closing of the open column files -/
-inductive After where
-  | finish                    -- `d.Close()` at the end of the read
-  | reopenAt (b c : Nat)      -- `d.Close()` inside `ReadBlockAtIndex` before the recovering `Open`
+  | init                      -- `recoverDirPath` in the initial `Open`
+  | reopen (b c : Nat)        -- `relocateColumn` inside `ReadBlockAtIndex(c, b)`
   deriving Repr, DecidableEq
 
 /-- program counter of the reader: the NEXT file operation (stop points are `openat` and `close`;
@@ -29,13 +25,13 @@ inductive After where
 inductive Pc where
   | listOpen                   -- openat(month directory)
   | listClose                  -- getdents64 … close: the directory content as of now
-  | openMeta (st : Stage)      -- openat(<name>/.blockmeta)
-  | metaClose (st : Stage)     -- fstat, read, close of the metadata file
+  | openMeta                   -- openat(<name>/.blockmeta)
+  | metaClose                  -- fstat, read, close of the metadata file
   | relistOpen (st : Stage)
   | relistClose (st : Stage)
-  | openMeta2 (st : Stage)
+  | openMeta2                  -- second and last attempt of `Open`
   | opencol (b c : Nat) (retry : Bool)
-  | closing (n : Nat) (next : After)   -- `n` column files still to close
+  | closing (n : Nat)          -- `d.Close()` at the end of the read: `n` column files still to close
   | done
   deriving Repr, DecidableEq
 
@@ -45,7 +41,7 @@ structure Reader where
   blocks : List Nat              -- block list of the metadata read by the initial `Open`
   opened : List Nat              -- columns with an open descriptor
   bad : List Nat                 -- indices of blocks that could not be read
-  dead : Bool                    -- `GPDir` closed by a failed recovery: everything else fails
+  dead : Bool                    -- the initial `Open` failed
   ops : List String              -- operations performed so far (for trace conformance)
   res : Option String            -- final result when it is not a block list
   deriving Repr
@@ -69,7 +65,7 @@ def nextOpen (hist : List WriteOut) (blocks opened bad : List Nat) : Nat → Nat
 def advance (hist : List WriteOut) (r : Reader) (b c : Nat) : Reader :=
   match nextOpen hist r.blocks r.opened r.bad (8 * (r.blocks.length + 1) + 8) b c with
   | some (b', c') => { r with pc := .opencol b' c' false }
-  | none => if r.opened.isEmpty then { r with pc := .done } else { r with pc := .closing r.opened.length .finish }
+  | none => if r.opened.isEmpty then { r with pc := .done } else { r with pc := .closing r.opened.length }
 
 def colName (c : Nat) : String := colNames.getD c "?"
 
@@ -87,33 +83,30 @@ def stepReader (hist : List WriteOut) (iface : String) (day : Int) (fs : Fs) (r 
   | .listClose =>
     match d with
     | none => { r with pc := .done, ops := r.ops ++ ["close"], res := some "absent" }
-    | some dd => { r with pc := .openMeta .init, path := dd.named, ops := r.ops ++ ["close"] }
-  | .openMeta st =>
-    if st = .init && pathOk && metaNow.isNone then
+    | some dd => { r with pc := .openMeta, path := dd.named, ops := r.ops ++ ["close"] }
+  | .openMeta =>
+    if pathOk && metaNow.isNone then
       -- `IsUninitialized`: the directory exists but holds no metadata yet: the day is skipped (as walkDB does)
       { r with pc := .done, res := some "absent" }
     else if pathOk && metaNow.isSome then
       -- the descriptor pins the metadata file as it is now (it is only ever replaced by rename)
-      { r with pc := .metaClose st, ops := r.ops ++ ["openmeta:ok"],
-               blocks := (if st = .init then metaNow.getD [] else r.blocks) }
-    else { r with pc := .relistOpen st, ops := r.ops ++ ["openmeta:ENOENT"] }
-  | .metaClose st =>
-    let r' := { r with ops := r.ops ++ ["close"] }
-    match st with
-    | .init => advance hist r' 0 0
-    | .reopen b c => { r' with pc := .opencol b c true }
+      { r with pc := .metaClose, ops := r.ops ++ ["openmeta:ok"], blocks := metaNow.getD [] }
+    else { r with pc := .relistOpen .init, ops := r.ops ++ ["openmeta:ENOENT"] }
+  | .metaClose => advance hist { r with ops := r.ops ++ ["close"] } 0 0
   | .relistOpen st => { r with pc := .relistClose st, ops := r.ops ++ ["readdir"] }
   | .relistClose st =>
-    match d with
-    | none => { r with pc := .done, dead := true, ops := r.ops ++ ["close"], res := (if st = .init then some "err:open" else r.res) }
-    | some dd => { r with pc := .openMeta2 st, path := dd.named, ops := r.ops ++ ["close"] }
-  | .openMeta2 st =>
+    match st, d with
+    | .init, none => { r with pc := .done, dead := true, ops := r.ops ++ ["close"], res := some "err:open" }
+    | .init, some dd => { r with pc := .openMeta2, path := dd.named, ops := r.ops ++ ["close"] }
+    -- `relocateColumn`: only the path changes; metadata and open column files stay as they are
+    | .reopen b _, none => advance hist { r with bad := r.bad ++ [b], ops := r.ops ++ ["close"] } (b + 1) 0
+    | .reopen b c, some dd => { r with pc := .opencol b c true, path := dd.named, ops := r.ops ++ ["close"] }
+  | .openMeta2 =>
     if pathOk && metaNow.isSome then
-      { r with pc := .metaClose st, ops := r.ops ++ ["openmeta:ok"],
-               blocks := (if st = .init then metaNow.getD [] else r.blocks) }
+      { r with pc := .metaClose, ops := r.ops ++ ["openmeta:ok"], blocks := metaNow.getD [] }
     else
       -- the directory moved again between the listing and the open: `Open` gives up
-      { r with pc := .done, dead := true, ops := r.ops ++ ["openmeta:ENOENT"], res := (if st = .init then some "err:open" else r.res) }
+      { r with pc := .done, dead := true, ops := r.ops ++ ["openmeta:ENOENT"], res := some "err:open" }
   | .opencol b c retry =>
     if pathOk then
       advance hist { r with opened := r.opened ++ [c], ops := r.ops ++ ["opencol:" ++ colName c ++ ":ok"] } b (c + 1)
@@ -121,17 +114,11 @@ def stepReader (hist : List WriteOut) (iface : String) (day : Int) (fs : Fs) (r 
       -- second ENOENT in a row: `ReadBlockAtIndex` returns the error, the block is lost for this reader
       advance hist { r with bad := r.bad ++ [b], ops := r.ops ++ ["opencol:" ++ colName c ++ ":ENOENT"] } (b + 1) 0
     else
-      let r' := { r with ops := r.ops ++ ["opencol:" ++ colName c ++ ":ENOENT"] }
-      -- `_ = d.Close()` closes every open column file, then `d.Open()` starts over at the old path
-      if r.opened.isEmpty then { r' with pc := .openMeta (.reopen b c) }
-      else { r' with pc := .closing r.opened.length (.reopenAt b c) }
-  | .closing n next =>
+      -- `relocateColumn` lists the month directory for the new name of the day directory
+      { r with pc := .relistOpen (.reopen b c), ops := r.ops ++ ["opencol:" ++ colName c ++ ":ENOENT"] }
+  | .closing n =>
     let r' := { r with ops := r.ops ++ ["close"] }
-    if n ≤ 1 then
-      match next with
-      | .finish => { r' with pc := .done, opened := [] }
-      | .reopenAt b c => { r' with pc := .openMeta (.reopen b c), opened := [] }
-    else { r' with pc := .closing (n - 1) next }
+    if n ≤ 1 then { r' with pc := .done, opened := [] } else { r' with pc := .closing (n - 1) }
 
 /-- writer position: write-out `k` started in `fs0` and has performed `n` operations -/
 structure Writer where
@@ -171,6 +158,7 @@ def resultOf (hist : List WriteOut) (r : Reader) : String :=
         | none => "ERR")
 
 def handle : List String → String
+  | ["free", _, _] => "free=ok"    -- free-running overlap: no schedule to predict, judged by the spec only
   | [h, k0s, sched] =>
     match parseHistory h, Wire.parseNat k0s with
     | some hist, some k0 =>
@@ -180,7 +168,8 @@ def handle : List String → String
         let fs0 := (List.range k0).foldl (fun fs i => runWriteOut hist fs i 1000) Fs.empty
         let (w, r) := runSched hist w0.iface (dayOf w0.ts) sched.toList { fs0 := fs0, k := k0, n := 0 } Reader.start
         let r := finishReader hist w0.iface (dayOf w0.ts) (w.fs hist) 400 r
-        "rops=" ++ Wire.showList r.ops ++ " res=" ++ resultOf hist r
+        -- `relocateColumn` releases no buffer a caller may hold: what was read for a block is its content
+        "rops=" ++ Wire.showList r.ops ++ " res=" ++ resultOf hist r ++ " data=ok"
     | _, _ => "bad-args"
   | _ => "bad-op"
 
